@@ -295,6 +295,9 @@ def check_c01(tier, seed):
     # other plausible orders: ASCII punctuation around the letters, caseless / non-BMP characters
     for dn, hs in random_batches(seed + 13, tier, 24, 300, 40, dicts=("G", "D")).items():
         run_batch(out, f"order{dn}", dn, hs)
+    # names at the 31-unit limit counted in UTF-16 units (surrogate pairs count twice), NULs and high-BMP characters
+    for dn, hs in random_batches(seed + 17, tier, 16, 200, 30, dicts=("E", "C")).items():
+        run_batch(out, f"names{dn}", dn, hs)
     return finish(out, "model_checking",
                   "G1b: every transition of the MC_Tree state graph replayed on the real library (last two steps heavy + query battery); "
                   "every transition of the MC_Dir sibling-tree graph (every reachable tree shape x every insertion / removal, 5 keys quick / 6 thorough); "
@@ -310,7 +313,7 @@ def check_c02(tier, seed):
         run_batch(out, f"forks{dn}", dn, gens.with_forks(rng, hs, 0.7))
     # names whose on-disk form is not their character count: supplementary-plane characters (two code units
     # each), high BMP, NUL inside the name, 31-unit boundary
-    for dn, hs in random_batches(seed + 11, tier, 16, 200, 30, dicts=("C", "D", "E"), reopen_p=0.06).items():
+    for dn, hs in random_batches(seed + 11, tier, 16, 200, 30, dicts=("C", "D", "E", "B", "G"), reopen_p=0.06).items():
         run_batch(out, f"names{dn}", dn, hs)
     fid = Fidelity()
     for v4 in (False, True):
@@ -334,6 +337,10 @@ def check_c03(tier, seed):
     run_batch(out, "thresholds", "A", gens.threshold_histories(tier, seed))
     for dn, hs in random_batches(seed + 2, tier, 50, 500, 40, dicts=("A", "B", "D")).items():
         run_batch(out, f"random{dn}", dn, hs, extra_specs=("Trace_Phys",), keep=fid.lines)
+    # R7 (search tree under CFB order) on the alphabets where CFB order differs from other plausible orders:
+    # ASCII punctuation between the two letter cases, boundary lengths in UTF-16 units, NUL / high-BMP characters
+    for dn, hs in random_batches(seed + 12, tier, 16, 200, 30, dicts=("G", "E", "C")).items():
+        run_batch(out, f"order{dn}", dn, hs)
     run_batch(out, "edges", "A", edges_namespace(out, tier), extra_specs=("Trace_Phys",), keep=fid.lines)
     return finish(out, "model_checking",
                   "WF(img) (rules R1..R8 of spec/CfbImage.tla) evaluated by TLC on the independent raw decode of the image after every heavy event; "
@@ -404,7 +411,8 @@ def check_c08(tier, seed):
     run_batch(out, "random-chunked", "A", hs2)
     # through one long-lived handle (window filled before the shrink), judged by the handle model
     from . import hgens
-    run_batch(out, "handle", "A", hgens.c08_handle_histories(tier) + hgens.setlen_within_unit_histories(tier), spec="Trace_Handle", driver="hdrive")
+    run_batch(out, "handle", "A", hgens.c08_handle_histories(tier) + hgens.setlen_within_unit_histories(tier) + hgens.dirty_growth_histories(tier),
+              spec="Trace_Handle", driver="hdrive")
     return finish(out, "model_checking",
                   "CfbTree.SetLen extends with a zero run; all writes use fresh non-zero fill bytes so stale data is a mismatch in api / Abs(img) / reopen dumps. "
                   "T1 write-shrink-grow triples, T2 reuse after remove/shrink (with/without pinned mini-stream tail), T3 across migrations, T4 cut and growth inside the same final (mini) sector (file level and through one handle)",
